@@ -24,6 +24,12 @@ type synGrid struct {
 func log2u(v uint) int { return bits.Len(v) - 1 }
 
 func newSynGrid(tw uint, m int, x0, y0 float64, corner string, nz int) *synGrid {
+	return newSynGridAxes(tw, m, x0, y0, corner, nz, false)
+}
+
+// newSynGridAxes: with swapped = true the document is written in a northing/easting CRS (EPSG:3035, orderedAxes Y, X):
+// pointOfOrigin holds [y, x]; the geometry in x,y order is the same as for swapped = false.
+func newSynGridAxes(tw uint, m int, x0, y0 float64, corner string, nz int, swapped bool) *synGrid {
 	g := &synGrid{TW: tw, M: m, X0: x0, Y0: y0, Corner: corner, NZ: nz}
 	span := math.Ldexp(1, m)
 	type tmJSON struct {
@@ -50,6 +56,13 @@ func newSynGrid(tw uint, m int, x0, y0 float64, corner string, nz int) *synGrid 
 	doc := map[string]any{
 		"id": "Synthetic", "title": "synthetic dyadic grid", "crs": "http://www.opengis.net/def/crs/EPSG/0/28992",
 		"orderedAxes": []string{"X", "Y"}, "tileMatrices": tms,
+	}
+	if swapped {
+		for i := range tms {
+			tms[i].PointOfOrigin = [2]float64{tms[i].PointOfOrigin[1], tms[i].PointOfOrigin[0]}
+		}
+		doc["crs"] = "http://www.opengis.net/def/crs/EPSG/0/3035"
+		doc["orderedAxes"] = []string{"Y", "X"}
 	}
 	b, err := json.Marshal(doc)
 	if err != nil {
